@@ -404,6 +404,7 @@ func init() {
 	reg("strconv.QuoteToASCII", quoteI)
 	reg("strconv.quoteWith", quoteI)
 
+	reg("syscall.EpollCtl", func(e *Engine, args []Value, fn *ssa.Function) Value { return Iface{} })
 	// reflect / misc
 	reg("reflect.TypeOf", func(e *Engine, args []Value, fn *ssa.Function) Value { return Iface{} })
 	reg("os.Getenv", func(e *Engine, args []Value, fn *ssa.Function) Value { return Str{} })
